@@ -1801,6 +1801,18 @@ impl Monitors {
                     "S2-task-stuck",
                     format!("at rest with capable workers connected, job {} still has unfinished tasks {detail:?} ({} in total)", j.id, stuck.len()),
                 );
+                // C08: tasks of other jobs are unaffected by a cancel
+                let other_job_canceled = self.canceled_tasks.iter().any(|t| t.0 != j.id);
+                let this_job_canceled = self.canceled_tasks.iter().any(|t| t.0 == j.id);
+                if other_job_canceled && !this_job_canceled {
+                    viol(
+                        out,
+                        step,
+                        "C08",
+                        "K6-task-of-other-job-stuck-after-cancel",
+                        format!("another job was canceled during the run; at rest job {} (never canceled) still has unfinished tasks {detail:?}", j.id),
+                    );
+                }
             } else {
                 self.count("job.all_terminal", 1);
             }
